@@ -579,7 +579,7 @@ fn run_lsp_child(run_dir: &PathBuf, key: u64, workload: &lsp::LspWorkload) -> Va
     let scheduler = workload.scheduler;
     run_child_with(key, scheduler, move |log| {
         let world = lsp::prepare_world(&run_dir, &workload);
-        let served = lsp::serve(&world, &workload.bursts, workload.io_seed, workload.short_io);
+        let served = lsp::serve(&world, &workload.bursts, workload.io_seed, workload.short_io, workload.coop);
         let masked: Vec<Value> = served
             .frames
             .iter()
@@ -613,6 +613,8 @@ fn run_child_with(
                 let mut first = FIRST_PANIC.lock().unwrap_or_else(|e| e.into_inner());
                 if first.is_none() {
                     *first = Some(info.to_string());
+                    // survives an abort during unwinding (the parent reads the child's stderr)
+                    eprintln!("ZYSIM-FIRST-PANIC: {}", info.to_string().replace('\n', " "));
                 }
                 if let Some(path) = &path {
                     if let Ok(mut file) = std::fs::OpenOptions::new().create(true).append(true).open(path) {
@@ -623,6 +625,7 @@ fn run_child_with(
         }
         zydeco_utils::verif::set_scheduling_hook(key_space_point);
         cajun::verif::set_blocking_spawner(blocking_spawner);
+        cajun::verif::set_cooperative_yield(lsp::cooperative_yield);
         let log = Arc::new(Log::default());
         let log_for_run = Arc::clone(&log);
         let result = catch_unwind(AssertUnwindSafe(move || {
@@ -660,9 +663,16 @@ fn run_child_with(
     });
     match outcome {
         | ChildOutcome::Record(bytes) => serde_json::from_slice(&bytes).unwrap_or(json!({"failure": "unparsable child record", "events": []})),
-        | ChildOutcome::Crashed { status, signal, stderr, .. } => json!({
-            "events": [], "failure": format!("process died (status {status}, signal {signal}): {}", String::from_utf8_lossy(&stderr[stderr.len().saturating_sub(1200)..])),
-        }),
+        | ChildOutcome::Crashed { status, signal, stderr, .. } => {
+            // the first panic message is what matters; the tail is usually a backtrace
+            let text = String::from_utf8_lossy(&stderr).to_string();
+            let head = text
+                .find("ZYSIM-FIRST-PANIC: ")
+                .map(|at| text[at + 19..].lines().next().unwrap_or("").to_string())
+                .unwrap_or_default();
+            let tail = &text[text.char_indices().rev().nth(500).map(|(i, _)| i).unwrap_or(0)..];
+            json!({"events": [], "failure": format!("process died (status {status}, signal {signal}): {head} … {tail}")})
+        }
         | ChildOutcome::TimedOut => json!({"events": [], "failure": "deadlock or livelock: wall-clock safety net fired", "timed_out": true}),
     }
 }
